@@ -15,6 +15,8 @@
 //                                                                                 : List String
 //   func_text        gofmt-normalised, comment-free text of `func`               : String
 //   returns_in_func  rendered operands of every return statement in `func`       : List String
+//   skeleton_in_func control skeleton of `func` (calls filtered by `filter`, if/else/for/case/func
+//                    brackets, returns), source order                             : List String
 //   assigns_in_func  rendered assignment and ++/-- statements in `func` whose left-hand side starts
 //                    with a prefix in `filter` (all when no filter), source order : List String
 //
@@ -228,6 +230,161 @@ func findAssignedAnywhere(f *ast.File, name string) ast.Expr {
 		return true
 	})
 	return found
+}
+
+// skeleton renders the control skeleton of a block as a token list (kind skeleton_in_func).
+func skeleton(fset *token.FileSet, body *ast.BlockStmt, filter []string) []string {
+	var out []string
+	keep := func(name string) bool {
+		if len(filter) == 0 {
+			return true
+		}
+		for _, p := range filter {
+			if strings.HasPrefix(name, p) {
+				return true
+			}
+		}
+		return false
+	}
+	var expr func(e ast.Node)
+	var stmt func(s ast.Stmt)
+	var block func(b *ast.BlockStmt)
+	callTok := func(x *ast.CallExpr, lhs string) {
+		name := render(fset, x.Fun)
+		if _, isLit := x.Fun.(*ast.FuncLit); !isLit && keep(name) {
+			if lhs != "" {
+				out = append(out, "call "+name+" => "+lhs)
+			} else {
+				out = append(out, "call "+name)
+			}
+		}
+		expr(x.Fun)
+		for _, a := range x.Args {
+			expr(a)
+		}
+	}
+	expr = func(e ast.Node) {
+		if e == nil {
+			return
+		}
+		ast.Inspect(e, func(n ast.Node) bool {
+			switch x := n.(type) {
+			case *ast.FuncLit:
+				out = append(out, "func {")
+				block(x.Body)
+				out = append(out, "}")
+				return false
+			case *ast.CallExpr:
+				callTok(x, "")
+				return false
+			}
+			return true
+		})
+	}
+	block = func(b *ast.BlockStmt) {
+		if b == nil {
+			return
+		}
+		for _, s := range b.List {
+			stmt(s)
+		}
+	}
+	stmt = func(s ast.Stmt) {
+		switch x := s.(type) {
+		case nil:
+		case *ast.BlockStmt:
+			block(x)
+		case *ast.LabeledStmt:
+			stmt(x.Stmt)
+		case *ast.AssignStmt:
+			if len(x.Rhs) == 1 {
+				r := x.Rhs[0]
+				for {
+					p, ok := r.(*ast.ParenExpr)
+					if !ok {
+						break
+					}
+					r = p.X
+				}
+				if ce, ok := r.(*ast.CallExpr); ok {
+					parts := make([]string, len(x.Lhs))
+					for i, l := range x.Lhs {
+						parts[i] = render(fset, l)
+					}
+					callTok(ce, strings.Join(parts, ","))
+					return
+				}
+			}
+			for _, r := range x.Rhs {
+				expr(r)
+			}
+		case *ast.IfStmt:
+			stmt(x.Init)
+			expr(x.Cond)
+			out = append(out, "if "+render(fset, x.Cond)+" {")
+			block(x.Body)
+			if x.Else != nil {
+				out = append(out, "} else {")
+				stmt(x.Else)
+			}
+			out = append(out, "}")
+		case *ast.ForStmt:
+			stmt(x.Init)
+			expr(x.Cond)
+			out = append(out, "for {")
+			block(x.Body)
+			stmt(x.Post)
+			out = append(out, "}")
+		case *ast.RangeStmt:
+			expr(x.X)
+			out = append(out, "for {")
+			block(x.Body)
+			out = append(out, "}")
+		case *ast.SwitchStmt:
+			stmt(x.Init)
+			expr(x.Tag)
+			block(x.Body)
+		case *ast.TypeSwitchStmt:
+			stmt(x.Init)
+			stmt(x.Assign)
+			block(x.Body)
+		case *ast.SelectStmt:
+			block(x.Body)
+		case *ast.CaseClause:
+			for _, e := range x.List {
+				expr(e)
+			}
+			out = append(out, "case {")
+			for _, b := range x.Body {
+				stmt(b)
+			}
+			out = append(out, "}")
+		case *ast.CommClause:
+			stmt(x.Comm)
+			out = append(out, "case {")
+			for _, b := range x.Body {
+				stmt(b)
+			}
+			out = append(out, "}")
+		case *ast.ReturnStmt:
+			for _, r := range x.Results {
+				expr(r)
+			}
+			out = append(out, "return")
+		case *ast.DeferStmt:
+			out = append(out, "defer")
+			expr(x.Call)
+		case *ast.GoStmt:
+			out = append(out, "go")
+			expr(x.Call)
+		case *ast.BranchStmt:
+			out = append(out, x.Tok.String())
+		default:
+			expr(s)
+		}
+	}
+	block(body)
+	return out
 }
 
 type posItem struct {
@@ -457,6 +614,14 @@ func main() {
 				ss[i] = it.s
 			}
 			fmt.Fprintf(&b, "def %s : List String :=\n  %s\n\n", fc.Name, leanStringList(ss))
+		case "skeleton_in_func":
+			// control skeleton of `func` as a token list, source order (added for C06):
+			//   "call NAME"            a call whose rendered callee starts with one of `filter`
+			//   "call NAME => LHS"     the same when the call is the only right-hand side of an assignment
+			//   "if COND {", "} else {", "}", "for {", "case {", "func {", "return"
+			// Calls in an if-statement's init/condition are emitted before its "if" token; function
+			// literals are bracketed by "func {" … "}" so that their returns are not the function's.
+			fmt.Fprintf(&b, "def %s : List String :=\n  %s\n\n", fc.Name, leanStringList(skeleton(fset, fd.Body, fc.Filter)))
 		case "func_text":
 			fmt.Fprintf(&b, "def %s : String := %s\n\n", fc.Name, leanString(render(fset, fd.Body)))
 		default:
